@@ -36,6 +36,8 @@ package bcl
 //@ group C01,C02,C03,C04,C10,C06
 //@ func (*vm).run
 //@   assert [C19] trace_goes_to_the_output_writer: at printStack#1: $w == vm.output
+//@   assert [C19] the_trace_shows_the_state_before_the_instruction_runs: at printStack#1: vm.pc == prev(vm.pc) && vm.tos == prev(vm.tos)
+//@   assert [C19] every_instruction_is_traced_at_its_own_offset_before_it_runs: at disasmInstr#1: $offset == prev(vm.pc) && vm.pc == prev(vm.pc)
 //@   assert [C01,C19] print_goes_to_the_output_writer: at Fprintln#1: $w == vm.output
 //@   requires prog_set: vm.prog != nil && vm.prog.linePos != nil
 //@   requires initial: vm.tos == 0 && vm.blockTos == 0 && vm.pc == 0
